@@ -175,6 +175,65 @@ def main():
                                               dict(strict=CC.case_to_replay(E.Case(r, small=(v,), cfg=CC.CFG_NONE)), relaxed=CC.case_to_replay(c), edge='add-record'))
                 run.block(f'ADD/{r}/w{wi}', 2 * len(pairs), nt, True, deviations=2, window=[lo, hi])
 
+    # ---- adding a unit (a fusion / circRNA record, i.e. another GVF file) to a case that has other units ----
+    # every later unit of a transcript reads the transcript's variant series; a unit that alters shared state
+    # shows up as peptides of the *other* units disappearing when the record is added
+    if not run.only or 'addunit' in run.only:
+        ref = panel.get('R7')
+        tx = 'ENST0A1'
+        L = ref.tx_len(tx)
+        snvs = [E.small_alphabet(ref, tx, p, reduced=True)[0] for p in range(12, L - 6, 13 if run.tier == 'quick' else 7)]
+        allf = CC.fusion_cases('R7', 'ENST0A1', 'ENST0B1', 1, CC.CFG_NONE)
+        bps = sorted({f.fusions[0].donor_pos for f in allf})
+        pick = [bps[len(bps) * k // 5] for k in (1, 2, 3, 4)]
+        fus = []
+        for bp in pick:
+            fz = [f.fusions[0] for f in allf if f.fusions[0].donor_pos == bp]
+            fus.append(fz[len(fz) // 3])
+        circs = [c.circs[0] for c in CC.circ_cases('R7', tx, CC.CFG_NONE)]
+        pairs = []      # (strict case, relaxed case, added backbone id)
+        for v in snvs:
+            for c in circs:
+                for f in fus:
+                    pairs.append((E.Case('R7', small=(v,), circs=(c,), cfg=CC.CFG_NONE),
+                                  E.Case('R7', small=(v,), circs=(c,), fusions=(f,), cfg=CC.CFG_NONE), f.id()))
+            for f1 in fus:
+                for f2 in fus:
+                    if f1 is not f2:
+                        pairs.append((E.Case('R7', small=(v,), fusions=(f1,), cfg=CC.CFG_NONE),
+                                      E.Case('R7', small=(v,), fusions=(f1, f2), cfg=CC.CFG_NONE), f2.id()))
+                for c in circs[::2]:
+                    pairs.append((E.Case('R7', small=(v,), fusions=(f1,), cfg=CC.CFG_NONE),
+                                  E.Case('R7', small=(v,), fusions=(f1,), circs=(c,), cfg=CC.CFG_NONE), c.id()))
+        uniq = {}
+        for a, b, _ in pairs:
+            uniq.setdefault(a.key(), a)
+            uniq.setdefault(b.key(), b)
+        ul = list(uniq.values())
+        ures, _, _ = E.run_block('ADDUNIT/R7', ul, jobs=run.jobs)
+        rmap = {c.key(): r for c, r in zip(ul, ures)}
+        nt = 0
+        for a, b, added in pairs:
+            ra, rb = rmap[a.key()], rmap[b.key()]
+            if not (ra['ok'] and rb['ok']):
+                if ra['ok'] != rb['ok']:
+                    run.violation(f'{b.key()}|addunit:{added}|one-crashes', f'strict ok={ra["ok"]} relaxed ok={rb["ok"]}: {ra["exc"] or rb["exc"]}',
+                                  dict(strict=CC.case_to_replay(a), relaxed=CC.case_to_replay(b), edge='add-unit'))
+                continue
+            pa, pb = set(ra['peptides'] or {}), set(rb['peptides'] or {})
+            nt += 1 if (pa or pb) else 0
+            lost = pa - pb
+            if lost:
+                run.violation(f'{b.key()}|addunit:{added}|lost:{",".join(sorted(lost)[:3])}',
+                              f'adding record {added} removed peptides of the other units: {sorted(lost)[:6]}',
+                              dict(strict=CC.case_to_replay(a), relaxed=CC.case_to_replay(b), edge='add-unit'))
+            for pep in sorted(pb - pa):
+                if not any(e.split('|')[0] == added for e in rb['peptides'][pep]):
+                    run.violation(f'{b.key()}|addunit:{added}|unattributable:{pep}',
+                                  f'peptide {pep} appears only when {added} is added but no entry is on that backbone: {rb["peptides"][pep]}',
+                                  dict(strict=CC.case_to_replay(a), relaxed=CC.case_to_replay(b), edge='add-unit'))
+        run.block('ADDUNIT/R7', len(pairs), nt, True, deviations=3, snvs=len(snvs), fusions=len(fus), circs=len(circs))
+
     # ---- one large block, limits disabled: chain of nested sets over 12 variants ---------------------
     if not run.only or 'chain' in run.only:
         ref = panel.get('R1')
